@@ -1,7 +1,10 @@
 (* C04, extra: the browser is created later. The node first runs with the browser not registered (bn_on = false,
-   nothing is reported), then `blisten` registers it and replays the cached, unexpired pointer records as Added,
-   then the run continues. Extra hypothesis: when the browser is created no expired-but-unpurged pointer record of
-   a browsed type is cached (no_stale). *)
+   nothing is reported), then `blisten` registers it: it first reaps the expired records of the cache (the way the
+   periodic cleanup does, the browser not being registered yet, so nothing is reported for them) and then replays the
+   cached, unexpired pointer records as Added; then the run continues. No extra hypothesis is needed any more: after
+   the purge at time `now` no record of the cache is expired at `now` (purge_no_expired), so the former hypothesis
+   `no_stale types now (bn_cache n0)` holds of the purged cache by construction (purge_no_stale), and under the index
+   invariant the purge does not raise (purge_inv). *)
 From ZC Require Import Model.Base Model.PyRec Model.Dict Model.Re Model.Names Model.Cache Model.Ingest Model.Sched
   Model.Browser Gen.Const Gen.DnsPure Spec.CacheSpec Spec.IngestSpec.
 From ZC Require Import Proofs.C20_identity Proofs.C05_index Proofs.C05_cache Proofs.C06_lemmas Proofs.C06_ingest.
@@ -68,17 +71,31 @@ Definition listen_recs (types : list text) (now : Z) (c : cache) : list pyrec :=
 Definition listen_ops (types : list text) (now : Z) (c : cache) : list op :=
   flat_map (update_ops types now c) (map (fun r => (r, true)) (listen_recs types now c)).
 
-Lemma blisten_spec n0 now n1 o : blisten n0 now = (n1, o) ->
-  bn_cache n1 = bn_cache n0 /\ bn_types n1 = bn_types n0 /\ bn_on n1 = true /\
-  bo_callbacks o = enqueue_all [] (listen_ops (bn_types n0) now (bn_cache n0)).
+(* after the purge at [now] no record of the cache is expired at [now] *)
+Lemma purge_no_expired now c c' : Inv c -> pg_final (purge now c) = Ok c' ->
+  forall x, In x (flat c') -> DNSRecord_is_expired x now = false.
 Proof.
-  unfold blisten, listen_ops. cbv zeta. cbn [bn_cache bn_types bn_on].
-  fold (listen_recs (bn_types n0) now (bn_cache n0)).
-  destruct (listen_recs (bn_types n0) now (bn_cache n0)) as [|r0 recs] eqn:Er.
+  intros Hinv Ef x Hx. destruct (purge_facts now c c' Hinv Ef) as [_ [_ F]].
+  rewrite F in Hx. apply filter_In in Hx as [_ X]. apply negb_true_iff in X. exact X.
+Qed.
+
+Lemma purge_no_stale types now c c' : Inv c -> pg_final (purge now c) = Ok c' -> no_stale types now c'.
+Proof.
+  intros Hinv Ef x ty Hx _ _ _. exact (purge_no_expired now c c' Hinv Ef x Hx).
+Qed.
+
+(* [c0] is the purged cache *)
+Lemma blisten_spec n0 now c0 n1 o : pg_final (purge now (bn_cache n0)) = Ok c0 -> blisten n0 now = (n1, o) ->
+  bn_cache n1 = c0 /\ bn_types n1 = bn_types n0 /\ bn_on n1 = true /\
+  bo_callbacks o = enqueue_all [] (listen_ops (bn_types n0) now c0).
+Proof.
+  intro Ef. unfold blisten, listen_ops. rewrite Ef. cbv zeta. cbn [bn_cache bn_types bn_on].
+  fold (listen_recs (bn_types n0) now c0).
+  destruct (listen_recs (bn_types n0) now c0) as [|r0 recs] eqn:Er.
   - intro H. inversion H; subst n1 o. cbn. auto.
-  - set (n := {| bn_cache := bn_cache n0; bn_sched := bn_sched n0; bn_types := bn_types n0; bn_on := true |}).
-    pose proof (run_updates_pending n now (bn_cache n0) (map (fun r => (r, true)) (r0 :: recs)) eq_refl) as Hp.
-    destruct (run_updates n now (bn_cache n0) (map (fun r => (r, true)) (r0 :: recs))) as [s' p].
+  - set (n := {| bn_cache := c0; bn_sched := bn_sched n0; bn_types := bn_types n0; bn_on := true |}).
+    pose proof (run_updates_pending n now c0 (map (fun r => (r, true)) (r0 :: recs)) eq_refl) as Hp.
+    destruct (run_updates n now c0 (map (fun r => (r, true)) (r0 :: recs))) as [s' p].
     cbn [snd] in Hp. intro H. inversion H; subst n1 o. cbn [bn_cache bn_types bn_on bo_callbacks].
     split; [reflexivity|]. split; [reflexivity|]. split; [reflexivity|]. exact Hp.
 Qed.
@@ -167,16 +184,19 @@ Section Listen.
 End Listen.
 
 Lemma J_listen types n0 now n1 o :
-  types_distinct types -> Joff types n0 -> no_stale types now (bn_cache n0) -> blisten n0 now = (n1, o) ->
+  types_distinct types -> Joff types n0 -> blisten n0 now = (n1, o) ->
   J types n1 (bo_callbacks o).
 Proof.
-  intros Htd [_ [Htys [Hinv Hok]]] Hns Hl.
-  destruct (blisten_spec n0 now n1 o Hl) as [Ec [Et [Eon Ecb]]]. rewrite Htys in *.
+  intros Htd [_ [Htys [Hinv Hok]]] Hl.
+  destruct (purge_inv now (bn_cache n0) Hinv) as [c0 [Ef Hinv0]].
+  pose proof (purge_ok types now (bn_cache n0) c0 Hinv Hok Ef) as Hok0.
+  pose proof (purge_no_stale types now (bn_cache n0) c0 Hinv Ef) as Hns.
+  destruct (blisten_spec n0 now c0 n1 o Ef Hl) as [Ec [Et [Eon Ecb]]]. rewrite Htys in *.
   unfold J. rewrite Ec, Et, Eon, Ecb.
-  split; [reflexivity|]. split; [reflexivity|]. split; [exact Hinv|]. split; [exact Hok|]. split.
+  split; [reflexivity|]. split; [reflexivity|]. split; [exact Hinv0|]. split; [exact Hok0|]. split.
   - intro cb. unfold listen_ops. apply pending_types.
   - intros ty Hty k.
-    destruct (listen_events types now (bn_cache n0) Htd Hinv Hok Hns ty k Hty) as [[E A]|[E A]]; rewrite E, A; reflexivity.
+    destruct (listen_events types now c0 Htd Hinv0 Hok0 Hns ty k Hty) as [[E A]|[E A]]; rewrite E, A; reflexivity.
 Qed.
 
 (* ------------------------------------------------------------------ *)
@@ -184,46 +204,82 @@ Qed.
 Lemma listen_invariant types s ls0 now ls1 n0 cbs0 n1 o n cbs :
   hyp types (ls0 ++ ls1) ->
   brun (bnode_off types s) ls0 = Some (n0, cbs0) ->
-  no_stale types now (bn_cache n0) ->
   blisten n0 now = (n1, o) ->
   brun n1 ls1 = Some (n, cbs) ->
   cbs0 = [] /\ J types n (cbs0 ++ bo_callbacks o ++ cbs).
 Proof.
-  intros Hh Hr0 Hns Hl Hr1. pose proof Hh as [Htd _].
+  intros Hh Hr0 Hl Hr1. pose proof Hh as [Htd _].
   assert (Hlab : forall l, In l (ls0 ++ ls1) -> label_ok types l) by (apply hyp_labels; exact Hh).
   assert (H0 : Joff types (bnode_off types s)).
   { unfold Joff, bnode_off. cbn. split; [reflexivity|]. split; [reflexivity|]. split; [apply inv_empty|intros x []]. }
   destruct (Joff_run types ls0 _ n0 cbs0 (fun l Hin => Hlab l (in_or_app _ _ _ (or_introl Hin))) H0 Hr0) as [HJ0 E0].
   split; [exact E0|]. subst cbs0. cbn [app].
   apply (J_run types Htd ls1 n1 (bo_callbacks o) n cbs (fun l Hin => Hlab l (in_or_app _ _ _ (or_intror Hin)))).
-  - apply (J_listen types n0 now n1 o Htd HJ0 Hns Hl).
+  - apply (J_listen types n0 now n1 o Htd HJ0 Hl).
   - exact Hr1.
 Qed.
 
 Theorem C04_live_listen : forall types s ls0 now ls1 n0 cbs0 n1 o n cbs,
   hyp types (ls0 ++ ls1) ->
   brun (bnode_off types s) ls0 = Some (n0, cbs0) ->
-  no_stale types now (bn_cache n0) ->
   blisten n0 now = (n1, o) ->
   brun n1 ls1 = Some (n, cbs) ->
   forall ty, In ty types ->
     (forall k, In k (live_after (cbs0 ++ bo_callbacks o ++ cbs) ty) <-> In k (cached_instances (bn_cache n) ty)) /\
     NoDup (live_after (cbs0 ++ bo_callbacks o ++ cbs) ty).
 Proof.
-  intros types s ls0 now ls1 n0 cbs0 n1 o n cbs Hh Hr0 Hns Hl Hr1.
-  apply (J_live types n). apply (listen_invariant types s ls0 now ls1 n0 cbs0 n1 o n cbs Hh Hr0 Hns Hl Hr1).
+  intros types s ls0 now ls1 n0 cbs0 n1 o n cbs Hh Hr0 Hl Hr1.
+  apply (J_live types n). apply (listen_invariant types s ls0 now ls1 n0 cbs0 n1 o n cbs Hh Hr0 Hl Hr1).
 Qed.
 
 Theorem C04_alternate_listen : forall types s ls0 now ls1 n0 cbs0 n1 o n cbs,
   hyp types (ls0 ++ ls1) ->
   brun (bnode_off types s) ls0 = Some (n0, cbs0) ->
-  no_stale types now (bn_cache n0) ->
   blisten n0 now = (n1, o) ->
   brun n1 ls1 = Some (n, cbs) ->
   forall ty k, alternates false (events_of (cbs0 ++ bo_callbacks o ++ cbs) ty k).
 Proof.
-  intros types s ls0 now ls1 n0 cbs0 n1 o n cbs Hh Hr0 Hns Hl Hr1.
-  apply (J_alternate types n). apply (listen_invariant types s ls0 now ls1 n0 cbs0 n1 o n cbs Hh Hr0 Hns Hl Hr1).
+  intros types s ls0 now ls1 n0 cbs0 n1 o n cbs Hh Hr0 Hl Hr1.
+  apply (J_alternate types n). apply (listen_invariant types s ls0 now ls1 n0 cbs0 n1 o n cbs Hh Hr0 Hl Hr1).
+Qed.
+
+(* ------------------------------------------------------------------ *)
+(* non-vacuity / sharpness: the browser is off, one pointer record of the browsed type "_a._tcp.local." (ttl 4500 s,
+   received at 0) is cached and never purged; at 5 000 000 ms it is expired but still in the cache (the former no_stale
+   hypothesis fails there). Registration reports nothing and leaves a cache without that record. *)
+Definition stale_now : Z := 5000000.
+
+Example listen_purges_stale :
+  match brun (bnode_off [ex_type] (sched_init 10000 true)) [BResp 0 [ok_rec 120 4500 0]] with
+  | Some (n0, cbs0) =>
+      cbs0 = [] /\
+      flat (bn_cache n0) = [ok_rec 120 4500 0] /\
+      DNSRecord_is_expired (ok_rec 120 4500 0) stale_now = true /\
+      cached_instances (bn_cache n0) ex_type = [lower (p_alias (ok_rec 120 4500 0))] /\
+      (let '(n1, o) := blisten n0 stale_now in
+       bo_callbacks o = [] /\ bo_sends o = [] /\ bn_on n1 = true /\
+       flat (bn_cache n1) = [] /\ cached_instances (bn_cache n1) ex_type = [])
+  | None => False
+  end.
+Proof. vm_compute. repeat split; reflexivity. Qed.
+
+(* the hypothesis that has been removed was genuinely false on that node *)
+Example listen_stale_node_not_no_stale :
+  match brun (bnode_off [ex_type] (sched_init 10000 true)) [BResp 0 [ok_rec 120 4500 0]] with
+  | Some (n0, _) => ~ no_stale [ex_type] stale_now (bn_cache n0)
+  | None => False
+  end.
+Proof.
+  destruct (brun (bnode_off [ex_type] (sched_init 10000 true)) [BResp 0 [ok_rec 120 4500 0]]) as [[n0 cbs0]|] eqn:Hr;
+    [|vm_compute in Hr; discriminate Hr].
+  intro Hns. vm_compute in Hr. inversion Hr as [[En Ec]]. clear Hr.
+  assert (X : DNSRecord_is_expired (ok_rec 120 4500 0) stale_now = false).
+  { apply (Hns (ok_rec 120 4500 0) ex_type).
+    - rewrite <- En. vm_compute. left. reflexivity.
+    - reflexivity.
+    - left. reflexivity.
+    - vm_compute. reflexivity. }
+  vm_compute in X. discriminate X.
 Qed.
 
 Print Assumptions C04_live_listen.
